@@ -314,6 +314,11 @@ pub enum LaneOp {
     Unlinked,
     /// Drop both halves of the socket.
     Close,
+    /// Fault: the lane drops ITS READER of the runtime's output (runtime -> lane) and keeps its writer:
+    /// from then on every write / flush of the runtime's write task fails, the input stays healthy.
+    DropReader,
+    /// Fault: the lane closes its writer (lane -> runtime) and keeps reading the runtime's requests.
+    CloseWriter,
 }
 
 #[derive(Clone)]
@@ -326,6 +331,10 @@ pub struct LaneLog {
     pub syncs: Vec<(u64, Option<u64>)>,
     pub reader_end: Option<(u64, String)>,
     pub write_failed: Option<u64>,
+    /// Ticket at which the lane dropped its reader of the runtime's output (fault step).
+    pub reader_dropped: Option<u64>,
+    /// Ticket at which the lane closed its writer (fault step).
+    pub writer_closed: Option<u64>,
     /// Scripted operations handed to the lane and not yet completely handled.
     pub pending_ops: usize,
     /// The lane is in the middle of answering a request.
@@ -342,6 +351,8 @@ pub fn new_lane_log(init: &St) -> SharedLane {
         syncs: vec![],
         reader_end: None,
         write_failed: None,
+        reader_dropped: None,
+        writer_closed: None,
         pending_ops: 0,
         busy: false,
     }))
@@ -372,7 +383,8 @@ fn parse_cmd(kind: LaneKind, body: &[u8]) -> Result<Cmd, String> {
 }
 
 struct LaneWriter {
-    writer: ByteWriter,
+    /// `None` once the lane closed its writer (fault step).
+    writer: Option<ByteWriter>,
     gate: Arc<Gate>,
     log: SharedLane,
     id: Uuid,
@@ -381,10 +393,11 @@ struct LaneWriter {
 
 impl LaneWriter {
     async fn send(&mut self, kind: SentKind) {
-        if self.failed {
+        if self.failed || self.writer.is_none() {
             return;
         }
         self.gate.acquire().await;
+        let Some(writer) = self.writer.as_mut() else { return };
         let path = RelativeAddress::new(NODE, LANE);
         let text;
         let msg: ResponseMessage<&str, &[u8], &[u8]> = match &kind {
@@ -406,7 +419,7 @@ impl LaneWriter {
             g.sent.push(Sent { t0: ticket(), t1: None, kind });
             g.sent.len() - 1
         };
-        match self.writer.write_all(&buf).await {
+        match writer.write_all(&buf).await {
             Ok(()) => self.log.lock().sent[idx].t1 = Some(ticket()),
             Err(_) => {
                 self.failed = true;
@@ -429,8 +442,9 @@ pub async fn lane_task(
     init: St,
     mut rng: Rng,
 ) {
-    let mut framed = FramedRead::new(reader, RawRequestMessageDecoder);
-    let mut w = LaneWriter { writer, gate, log: log.clone(), id: Uuid::from_u128(0xD1), failed: false };
+    // `None` once the lane dropped its reader (fault step).
+    let mut framed = Some(FramedRead::new(reader, RawRequestMessageDecoder));
+    let mut w = LaneWriter { writer: Some(writer), gate, log: log.clone(), id: Uuid::from_u128(0xD1), failed: false };
     let mut state = init;
     let mut reading = true;
     // A lane only sends events down a link that exists: before the link request arrived, scripted
@@ -442,12 +456,15 @@ pub async fn lane_task(
     }
     loop {
         // `select!` without `biased` would consult Tokio's own RNG: keep the choice under the seed.
-        let next = if !reading {
-            Next::Op(ops.recv().await)
-        } else if rng.bool() {
-            tokio::select! { biased; o = ops.recv() => Next::Op(o), r = framed.next() => Next::Req(r) }
-        } else {
-            tokio::select! { biased; r = framed.next() => Next::Req(r), o = ops.recv() => Next::Op(o) }
+        let next = match framed.as_mut() {
+            Some(framed) if reading => {
+                if rng.bool() {
+                    tokio::select! { biased; o = ops.recv() => Next::Op(o), r = framed.next() => Next::Req(r) }
+                } else {
+                    tokio::select! { biased; r = framed.next() => Next::Req(r), o = ops.recv() => Next::Op(o) }
+                }
+            }
+            _ => Next::Op(ops.recv().await),
         };
         match next {
             Next::Op(None) | Next::Op(Some(LaneOp::Close)) => {
@@ -460,6 +477,20 @@ pub async fn lane_task(
                 log.lock().hist.push((ticket(), state.clone()));
                 if linked {
                     w.send(SentKind::Event(ev)).await;
+                }
+                let mut g = log.lock();
+                g.pending_ops = g.pending_ops.saturating_sub(1);
+            }
+            Next::Op(Some(LaneOp::DropReader)) => {
+                if framed.take().is_some() {
+                    log.lock().reader_dropped = Some(ticket());
+                }
+                let mut g = log.lock();
+                g.pending_ops = g.pending_ops.saturating_sub(1);
+            }
+            Next::Op(Some(LaneOp::CloseWriter)) => {
+                if w.writer.take().is_some() {
+                    log.lock().writer_closed = Some(ticket());
                 }
                 let mut g = log.lock();
                 g.pending_ops = g.pending_ops.saturating_sub(1);
@@ -509,7 +540,7 @@ pub async fn lane_task(
                             w.send(SentKind::Event(ev)).await;
                         }
                         w.send(SentKind::Synced).await;
-                        if !w.failed {
+                        if !w.failed && w.writer.is_some() {
                             log.lock().syncs[si].1 = Some(ticket());
                         }
                     }
